@@ -484,7 +484,11 @@ pub fn entry_case(rng: &mut Rng, v: u8, ccr: u8) -> Case {
     c.er = gen::regs(rng);
     c.ccr = ccr;
     let dram = rng.chance(1, 2);
-    let fa = gen::addr_in(rng, if dram { gen::Region::Dram } else { gen::Region::Ram }, 8) & !3;
+    let mut fa = gen::addr_in(rng, if dram { gen::Region::Dram } else { gen::Region::Ram }, 8) & !3;
+    if dram && rng.chance(1, 4) {
+        // frame straddling / next to a 64 KiB boundary (borrow out of the low word of SP)
+        fa = (0x410000 + ((rng.below(30) as u32) << 16)).wrapping_add((rng.below(5) as u32) * 4).wrapping_sub(8);
+    }
     let top = if rng.chance(1, 3) { 0 } else { rng.u8() };
     c.er[7] = (fa + 4) | ((top as u32) << 24);
     let target = gen::code_addr(rng, rng.clone().chance(1, 2));
